@@ -111,7 +111,7 @@ func runCodecs(seed uint64, n int, tier string, out string, replay string) {
 	codecsOut = out
 	rnd := hx.NewRand(seed)
 	sum := hx.NewSummary("codecs", seed)
-	sum.Rule = "Coq-evaluated cases: (a) level handling — a profile configured with each value of {0..13, 99, 2^31-1, 2^31, 2^32-1, 2^32+5} through compress.Reset; pike's gzip/brotli output for a probe body is compared with the reference encoders at every level to identify the level in effect; (b) decoder dispatch for the five documented encodings, identity and unsupported names; (c) LZ4 blocks — encoder outputs for n small bodies, hand-made high-ratio blocks (0..6 length-extension bytes: up to 1.5 KiB from 11 bytes), truncated blocks — pike's LZ4Decode vs the block-decoder model. Go-side only (volume): round trips of bodies 0 B..1 MiB (random, text, zeros, pattern) through pike's gzip/brotli at levels -1..12 decoded by pike AND by the reference decoders; all five pike decoders on reference-encoded streams incl. 1 MiB of zeros; 200 mutated streams per decoder under recover + 20 s watchdog; structured valid streams (multi-member / header-field / stored / huffman-only gzip, multi-frame and checksummed zstd, brotli at several qualities and window sizes and with flushes, literal-only snappy, LZ4 HC block) must be restored in full; every length 0..2048 of three one-byte-repeated payloads through snappy, zstd and lz4; ~90 crafted malformed streams (extreme declared sizes and flag combinations in zstd / snappy / gzip / brotli / lz4 framing) under recover + watchdog; 24 goroutines x 12 concurrent gzip+brotli encodes at shared levels, each stream decoded by the reference decoders. non-trivial = level case outside 1..9 or block with ratio > 10; distinct by case content"
+	sum.Rule = "Coq-evaluated cases: (a) level handling — a profile configured with each value of {0..13, 99, 2^31-1, 2^31, 2^32-1, 2^32+5} through compress.Reset; pike's gzip/brotli output for a probe body is compared with the reference encoders at every level to identify the level in effect; (b) decoder dispatch for the five documented encodings, identity and unsupported names; (c) LZ4 blocks — encoder outputs for n small bodies, hand-made high-ratio blocks (0..6 length-extension bytes: up to 1.5 KiB from 11 bytes), truncated blocks — pike's LZ4Decode vs the block-decoder model. Go-side only (volume): round trips of bodies 0 B..1 MiB (random, text, zeros, pattern) through pike's gzip/brotli at levels -1..12 decoded by pike AND by the reference decoders; all five pike decoders on reference-encoded streams incl. 1 MiB of zeros; 200 mutated streams per decoder under recover + 20 s watchdog; structured valid streams (multi-member / header-field / stored / huffman-only gzip, multi-frame and checksummed zstd, streamed zstd frames at the four encoder levels and with explicit windows up to 128 MiB, a hand-made 16 MiB-window frame, brotli at several qualities and window sizes and with flushes, literal-only snappy, LZ4 HC block) must be restored in full; every length 0..2048 of three one-byte-repeated payloads through snappy, zstd and lz4; ~90 crafted malformed streams (extreme declared sizes and flag combinations in zstd / snappy / gzip / brotli / lz4 framing) under recover + watchdog; 24 goroutines x 12 concurrent gzip+brotli encodes at shared levels, each stream decoded by the reference decoders. non-trivial = level case outside 1..9 or block with ratio > 10; distinct by case content"
 	header := "From Coq Require Import List NArith ZArith.\nImport ListNotations.\nFrom Pike Require Import Base.Bytes Model.Compress Model.LZ4 Corr.C12Corr.\n"
 	w := hx.NewCaseWriter(out, "codecs", header, "list c12_case", "check_cases", 60, sum)
 	distinct := hx.NewDistinct()
@@ -326,6 +326,32 @@ func runCodecs(seed uint64, n int, tier string, out string, replay string) {
 		}
 		vs = append(vs, vstream{"zst", "multi-frame(4)", zmulti, whole})
 		vs = append(vs, vstream{"zst", "best+crc", zw2.EncodeAll(parts[2], nil), parts[2]})
+		{ // streamed zstd frames (not single-segment) at every encoder level: the frame header declares the level's window (4 / 8 / 16 / 32 MiB), a 300 KiB body spans several blocks
+			big := make([]byte, 0, 300<<10)
+			for i := 0; len(big) < 300<<10; i++ {
+				big = append(big, []byte(fmt.Sprintf("streamed zstd body line %d of a text that repeats itself; ", i%977))...)
+			}
+			for _, lv := range []zstd.EncoderLevel{zstd.SpeedFastest, zstd.SpeedDefault, zstd.SpeedBetterCompression, zstd.SpeedBestCompression} {
+				var b bytes.Buffer
+				zw, _ := zstd.NewWriter(&b, zstd.WithEncoderLevel(lv))
+				_, _ = zw.Write(big[:100<<10])
+				_, _ = zw.Write(big[100<<10:])
+				_ = zw.Close()
+				vs = append(vs, vstream{"zst", "streamed " + lv.String(), b.Bytes(), big})
+			}
+			for _, lg := range []uint{20, 24, 26, 27} { // explicit windows of 1, 16, 64 and 128 MiB
+				var b bytes.Buffer
+				zw, err := zstd.NewWriter(&b, zstd.WithWindowSize(1<<lg))
+				if err != nil {
+					continue
+				}
+				_, _ = zw.Write(big)
+				_ = zw.Close()
+				vs = append(vs, vstream{"zst", fmt.Sprintf("streamed window 2^%d", lg), b.Bytes(), big})
+			}
+			// hand-made frame: magic, descriptor 0 (window descriptor follows, no content size), window descriptor 0x70 (16 MiB), one last raw block "hello"
+			vs = append(vs, vstream{"zst", "hand-made frame, 16 MiB window, raw block", []byte{0x28, 0xb5, 0x2f, 0xfd, 0x00, 0x70, 0x29, 0x00, 0x00, 'h', 'e', 'l', 'l', 'o'}, []byte("hello")})
+		}
 		for _, q := range []int{0, 1, 11} {
 			for _, lgwin := range []int{10, 16, 24} {
 				var b bytes.Buffer
